@@ -212,6 +212,7 @@ func runMember(t *testing.T, c *MemberCase) (term string, viols []vh.Violation, 
 			case "leave":
 				if n := slots[op.Node]; n != nil && n.up {
 					n.p.Leave(time.Second)
+					n.p.ShutdownForVerif()
 					n.up = false
 					events = append(events, vh.App("MLeave", vh.Str(n.name)))
 					tags["leave"]++
@@ -306,21 +307,71 @@ func sameNameBefore(all []*memberNode, name string) bool {
 	return n > 1
 }
 
-func TestMemberTry(t *testing.T) {
-	c := &MemberCase{Slots: 3, Ops: []MOp{
-		{Kind: "start", Node: 0, Name: "A"}, {Kind: "start", Node: 1, Name: "B"}, {Kind: "start", Node: 2, Name: "C"},
-		{Kind: "sleep", Dt: int64(5 * time.Second)},
-		{Kind: "big", Node: 0}, {Kind: "small", Node: 1},
-		{Kind: "crash", Node: 2}, {Kind: "restart", Node: 2, Name: "C2"},
-		{Kind: "big", Node: 0},
-		{Kind: "sleep", Dt: int64(120 * time.Second)},
-		{Kind: "big", Node: 0}, {Kind: "small", Node: 0}, {Kind: "big", Node: 2},
-	}}
-	t0 := time.Now()
-	term, v, tags := runMember(t, c)
-	t.Log(time.Since(t0), tags)
-	t.Log(term)
-	for _, x := range v {
-		t.Log(x.Key, x.What)
+// genMember: 3-4 address slots. Case 0 is always the plain trigger history (crash without leave, restart at the
+// same address under a new name before the old name is declared dead, late death of the old name, oversized update).
+func genMember(r *vh.Rand, idx int) *MemberCase {
+	c := &MemberCase{Slots: 3}
+	names := 0
+	fresh := func() string { names++; return fmt.Sprintf("n%02d", names) }
+	cur := map[int]string{}
+	add := func(op MOp) { c.Ops = append(c.Ops, op) }
+	startAll := func(n int) {
+		for i := 0; i < n; i++ {
+			cur[i] = fresh()
+			add(MOp{Kind: "start", Node: i, Name: cur[i]})
+		}
+		add(MOp{Kind: "sleep", Dt: int64(5 * time.Second)})
 	}
+	if idx == 0 {
+		startAll(3)
+		add(MOp{Kind: "big", Node: 0})
+		add(MOp{Kind: "crash", Node: 2})
+		cur[2] = fresh()
+		add(MOp{Kind: "restart", Node: 2, Name: cur[2]})
+		add(MOp{Kind: "big", Node: 0})
+		add(MOp{Kind: "sleep", Dt: int64(150 * time.Second)})
+		add(MOp{Kind: "big", Node: 0})
+		add(MOp{Kind: "small", Node: 1})
+		add(MOp{Kind: "big", Node: 1})
+		return c
+	}
+	if r.Chance(1, 3) {
+		c.Slots = 4
+	}
+	startAll(3)
+	rounds := r.Range(1, 2)
+	for k := 0; k < rounds; k++ {
+		add(MOp{Kind: vh.Pick(r, []string{"big", "big", "small"}), Node: r.Intn(3)})
+		v := r.Intn(3)
+		kind := vh.Pick(r, []string{"crash", "crash", "crash", "leave"})
+		add(MOp{Kind: kind, Node: v})
+		if r.Chance(1, 4) {
+			add(MOp{Kind: "sleep", Dt: int64(r.Range(1, 200)) * int64(time.Second)}) // sometimes the old name dies first
+		}
+		slot := v
+		if c.Slots == 4 && r.Chance(1, 3) {
+			// restart at a new address: the old slot stays empty, the instance moves to the spare one
+			slot = 3
+			if _, used := cur[3]; used {
+				slot = v
+			}
+		}
+		name := cur[v]
+		if r.Chance(3, 4) {
+			name = fresh()
+		}
+		delete(cur, v)
+		cur[slot] = name
+		add(MOp{Kind: "restart", Node: slot, Name: name})
+		var up []int
+		for s := range cur {
+			up = append(up, s)
+		}
+		sort.Ints(up)
+		add(MOp{Kind: "big", Node: vh.Pick(r, up)})
+		add(MOp{Kind: "sleep", Dt: int64(r.Range(60, 240)) * int64(time.Second)})
+		add(MOp{Kind: "big", Node: vh.Pick(r, up)})
+		add(MOp{Kind: vh.Pick(r, []string{"big", "small"}), Node: vh.Pick(r, up)})
+	}
+	return c
 }
